@@ -296,7 +296,7 @@ Proof.
   unfold facts_fuel in Hf. simpl in Hf.
   eapply concat_res_in; [exact Hf| |].
   - apply in_map_iff. exists (k, JStr ty). split; [|exact Hin].
-    simpl.
+    unfold member_facts. simpl.
     assert (Hkc : String.eqb k "@context" = false).
     { destruct (String.eqb k "@context") eqn:E; [|reflexivity].
       apply String.eqb_eq in E. subst k. unfold expand_doc in Hexp. simpl in Hexp. discriminate. }
@@ -390,6 +390,250 @@ Proof.
   unfold path_from_context, context_member. simpl. rewrite HG. simpl.
   rewrite Hnty, Hdty. rewrite HG2'. simpl.
   rewrite (Hhd t eq_refl), Hd, HG3. simpl. rewrite Hpfc. simpl. reflexivity.
+Qed.
+
+
+(* ------------------------------------------------------------------ *)
+(* (A) the field denoted by a dotted path is one of the document's facts *)
+(* ------------------------------------------------------------------ *)
+
+Lemma jget_in : forall k m v, jget k m = Some v -> In (k, v) m.
+Proof.
+  intros k m. induction m as [|[a b] m IH]; intros v H; simpl in H.
+  - discriminate.
+  - destruct (String.eqb a k) eqn:E.
+    + apply String.eqb_eq in E. inversion H; subst. left. reflexivity.
+    + right. apply IH. exact H.
+Qed.
+
+Lemma index_from_nth : forall {A} (l : list A) i0 i x,
+  nth_error l i = Some x -> In ((i0 + i)%nat, x) (index_from i0 l).
+Proof.
+  intros A l. induction l as [|h t IH]; intros i0 i x H.
+  - destruct i; discriminate.
+  - destruct i as [|i]; simpl in *.
+    + inversion H; subst. left. f_equal. lia.
+    + right. replace (i0 + S i)%nat with (S i0 + i)%nat by lia. apply IH. exact H.
+Qed.
+
+Lemma digit_val_nonneg : forall c, is_digit c = true -> (0 <= digit_val c)%Z.
+Proof.
+  intros c H. unfold is_digit in H. unfold digit_val.
+  apply andb_true_iff in H. destruct H as [H1 _]. apply Nat.leb_le in H1. lia.
+Qed.
+
+Lemma num_val_aux_nonneg : forall s acc, all_chars is_digit s = true -> (0 <= acc)%Z -> (0 <= num_val_aux acc s)%Z.
+Proof.
+  induction s as [|c s IH]; intros acc H Hacc; simpl in *.
+  - exact Hacc.
+  - apply andb_true_iff in H. destruct H as [Hc Hs].
+    apply IH; [exact Hs|]. pose proof (digit_val_nonneg c Hc). lia.
+Qed.
+
+Lemma num_val_nonneg : forall s, is_num s = true -> (0 <= num_val s)%Z.
+Proof.
+  intros s H. unfold num_val. apply num_val_aux_nonneg; [|lia].
+  unfold is_num in H. destruct s; [discriminate|exact H].
+Qed.
+
+Lemma scalar_fact_shape : forall G d dp p v fs,
+  scalar_fact G d dp p v = Ok fs ->
+  exists f, fs = [f] /\ f_path f = p /\
+    forall dp2 p2, exists f', scalar_fact G d dp2 p2 v = Ok [f'] /\ f_path f' = p2 /\ f_dt f' = f_dt f /\ f_val f' = f_val f.
+Proof.
+  intros G d dp p v fs H. unfold scalar_fact in *.
+  destruct (match d with Some d' => td_type d' | None => None end) as [t|].
+  - destruct (String.eqb t "@id" || String.eqb t "@vocab").
+    + destruct v; inversion H; subst; eexists; (split; [reflexivity|split; [reflexivity|]]);
+        intros dp2 p2; eexists; (split; [reflexivity|simpl; auto]).
+    + destruct (String.eqb t "@none" || String.eqb t "@json"); [discriminate|].
+      inversion H; subst. eexists; (split; [reflexivity|split; [reflexivity|]]).
+      intros dp2 p2; eexists; (split; [reflexivity|simpl; auto]).
+  - inversion H; subst. eexists; (split; [reflexivity|split; [reflexivity|]]).
+    intros dp2 p2; eexists; (split; [reflexivity|simpl; auto]).
+Qed.
+
+Lemma keyword_not_id_type : forall e, is_keyword e = false ->
+  String.eqb e "@id" = false /\ String.eqb e "@type" = false.
+Proof.
+  intros e H. split.
+  - destruct (String.eqb e "@id") eqn:E; [|reflexivity]. apply String.eqb_eq in E. subst e. discriminate.
+  - destruct (String.eqb e "@type") eqn:E; [|reflexivity]. apply String.eqb_eq in E. subst e. discriminate.
+Qed.
+
+Definition leaf_path (l : leaf) : list part := fst (fst l).
+Definition leaf_dt (l : leaf) : string := snd (fst l).
+Definition leaf_val (l : leaf) : json := snd l.
+
+(* the statement for one path, used as induction hypothesis *)
+Definition in_facts_stmt (ld : loader) (pi : list string) : Prop :=
+  forall G3 G4 m l n dp pp fs,
+  field_at ld pi G3 G4 m = Ok l ->
+  node_facts n ld G3 G4 m dp pp = Ok fs ->
+  exists f, In f fs /\ f_path f = pp ++ leaf_path l /\ f_dt f = leaf_dt l /\ f_val f = leaf_val l.
+
+Lemma step_in_item : forall ld G4 d x pe r l n' dp' pp a,
+  in_facts_stmt ld r ->
+  field_step ld G4 d x pe r (field_at ld r) = Ok l ->
+  item_facts (node_facts n' ld) ld G4 d dp' (pp ++ pe) x = Ok a ->
+  exists f, In f a /\ f_path f = pp ++ leaf_path l /\ f_dt f = leaf_dt l /\ f_val f = leaf_val l.
+Proof.
+  intros ld G4 d x pe r l n' dp' pp a IH Hs Hi.
+  destruct x as [|b|z|s|s|l0|m']; simpl in Hs, Hi; try discriminate.
+  - (* JBool *)
+    destruct r; [|discriminate].
+    apply bind_ok in Hs. destruct Hs as [fs0 [Hsf Hs]].
+    destruct (scalar_fact_shape _ _ _ _ _ _ Hsf) as [f0 [Hfs0 [Hp0 Hind]]]. subst fs0.
+    inversion Hs; subst l.
+    destruct (Hind dp' (pp ++ pe)) as [f' [Hf' [Hp' [Hdt' Hv']]]].
+    rewrite Hf' in Hi. inversion Hi; subst a.
+    exists f'. split; [left; reflexivity|]. unfold leaf_path, leaf_dt, leaf_val; simpl.
+    rewrite Hp', Hp0. auto.
+  - destruct r; [|discriminate].
+    apply bind_ok in Hs. destruct Hs as [fs0 [Hsf Hs]].
+    destruct (scalar_fact_shape _ _ _ _ _ _ Hsf) as [f0 [Hfs0 [Hp0 Hind]]]. subst fs0.
+    inversion Hs; subst l.
+    destruct (Hind dp' (pp ++ pe)) as [f' [Hf' [Hp' [Hdt' Hv']]]].
+    rewrite Hf' in Hi. inversion Hi; subst a.
+    exists f'. split; [left; reflexivity|]. unfold leaf_path, leaf_dt, leaf_val; simpl.
+    rewrite Hp', Hp0. auto.
+  - destruct r; [|discriminate].
+    apply bind_ok in Hs. destruct Hs as [fs0 [Hsf Hs]].
+    destruct (scalar_fact_shape _ _ _ _ _ _ Hsf) as [f0 [Hfs0 [Hp0 Hind]]]. subst fs0.
+    inversion Hs; subst l.
+    destruct (Hind dp' (pp ++ pe)) as [f' [Hf' [Hp' [Hdt' Hv']]]].
+    rewrite Hf' in Hi. inversion Hi; subst a.
+    exists f'. split; [left; reflexivity|]. unfold leaf_path, leaf_dt, leaf_val; simpl.
+    rewrite Hp', Hp0. auto.
+  - destruct r; [|discriminate].
+    apply bind_ok in Hs. destruct Hs as [fs0 [Hsf Hs]].
+    destruct (scalar_fact_shape _ _ _ _ _ _ Hsf) as [f0 [Hfs0 [Hp0 Hind]]]. subst fs0.
+    inversion Hs; subst l.
+    destruct (Hind dp' (pp ++ pe)) as [f' [Hf' [Hp' [Hdt' Hv']]]].
+    rewrite Hf' in Hi. inversion Hi; subst a.
+    exists f'. split; [left; reflexivity|]. unfold leaf_path, leaf_dt, leaf_val; simpl.
+    rewrite Hp', Hp0. auto.
+  - (* JObj *)
+    apply bind_ok in Hs. destruct Hs as [cc [Hent Hs]].
+    apply bind_ok in Hs. destruct Hs as [l0 [Hrec Hs]].
+    destruct l0 as [[q dt] v]. inversion Hs; subst l.
+    rewrite Hent in Hi. simpl in Hi.
+    apply bind_ok in Hi. destruct Hi as [sub [Hsub Hi]].
+    destruct (IH _ _ _ _ _ _ _ _ Hrec Hsub) as [f [Hin [Hp [Hdt Hv]]]].
+    exists f. unfold leaf_path, leaf_dt, leaf_val in *; simpl in *.
+    split; [|rewrite Hp, app_assoc; auto].
+    destruct (find _ (jkeys m')) as [ik|].
+    + destruct (jget ik m') as [[| | | |s| |]|]; inversion Hi; subst a; try exact Hin. right. exact Hin.
+    + inversion Hi; subst a. exact Hin.
+Qed.
+
+Lemma field_in_facts_len : forall ld N pi, (List.length pi <= N)%nat -> in_facts_stmt ld pi.
+Proof.
+  intros ld N. induction N as [|N IHN]; intros pi Hlen.
+  - destruct pi; [|simpl in Hlen; lia].
+    intros G3 G4 m l n dp pp fs Hf _. simpl in Hf. discriminate.
+  - destruct pi as [|k rest].
+    { intros G3 G4 m l n dp pp fs Hf _. simpl in Hf. discriminate. }
+    simpl in Hlen.
+    assert (IHrest : in_facts_stmt ld rest) by (apply IHN; lia).
+    intros G3 G4 m l n dp pp fs Hf Hn.
+    destruct n as [|n']; [simpl in Hn; discriminate|].
+    simpl in Hf.
+    destruct (is_num k || String.eqb k "@context") eqn:Hk0; [discriminate|].
+    apply orb_false_iff in Hk0. destruct Hk0 as [Hknum Hkctx].
+    destruct (jget k m) as [v|] eqn:Hget; [|discriminate].
+    remember (expand_doc G4 true k) as e eqn:He.
+    destruct (is_keyword e) eqn:Hkw; [discriminate|].
+    destruct (String.eqb e "" || negb (has_colon e)) eqn:Hundef; [discriminate|].
+    destruct (keyword_not_id_type e Hkw) as [Hnid Hnty].
+    simpl in Hn.
+    pose proof (jget_in k m v Hget) as Hin.
+    assert (Hmap : In (member_facts (node_facts n' ld) ld G3 G4 dp pp (k, v))
+                      (map (member_facts (node_facts n' ld) ld G3 G4 dp pp) m)).
+    { apply in_map. exact Hin. }
+    destruct (concat_res_all_ok _ _ _ Hn Hmap) as [a Ha].
+    assert (Hgoal : exists f, In f a /\ f_path f = pp ++ leaf_path l /\ f_dt f = leaf_dt l /\ f_val f = leaf_val l).
+    { unfold member_facts in Ha. simpl in Ha. rewrite Hkctx in Ha. rewrite <- He in Ha.
+      rewrite Hnid, Hnty, Hkw, Hundef in Ha.
+      (* which item *)
+      assert (Hitem : forall io x pe r,
+                In (io, x) (items_of v) ->
+                ext_path (pp ++ [PStr e]) io = pp ++ pe ->
+                in_facts_stmt ld r ->
+                field_step ld G4 (term_def G4 k) x pe r (field_at ld r) = Ok l ->
+                exists f, In f a /\ f_path f = pp ++ leaf_path l /\ f_dt f = leaf_dt l /\ f_val f = leaf_val l).
+      { intros io x pe r Hio Hext IHr Hstep.
+        set (F := fun it : option nat * json =>
+               item_facts (node_facts n' ld) ld G4 (term_def G4 k) (ext_doc (dp ++ [k]) (fst it))
+                          (ext_path (pp ++ [PStr e]) (fst it)) (snd it)) in *.
+        assert (HinF : In (F (io, x)) (map F (items_of v))) by (apply in_map; exact Hio).
+        destruct (concat_res_all_ok _ _ _ Ha HinF) as [b Hb].
+        unfold F in Hb. simpl in Hb. rewrite Hext in Hb.
+        destruct (step_in_item _ _ _ _ _ _ _ _ _ _ _ IHr Hstep Hb) as [f [Hfb Hprops]].
+        exists f. split; [|exact Hprops].
+        eapply concat_res_in; [exact Ha| |exact Hfb].
+        rewrite <- Hb in *. unfold F in HinF. simpl in HinF. rewrite Hext in HinF. exact HinF. }
+      destruct v as [|b|z|s|s|l0|m'].
+      - (* JNull *) destruct rest as [|i rest'].
+        + eapply (Hitem None JNull [PStr e] []); simpl; auto.
+        + destruct (is_num i); [discriminate|].
+          eapply (Hitem None JNull [PStr e] (i :: rest')); simpl; auto.
+      - destruct rest as [|i rest'].
+        + eapply (Hitem None _ [PStr e] []); simpl; eauto.
+        + destruct (is_num i); [discriminate|].
+          eapply (Hitem None _ [PStr e] (i :: rest')); simpl; eauto.
+      - destruct rest as [|i rest'].
+        + eapply (Hitem None _ [PStr e] []); simpl; eauto.
+        + destruct (is_num i); [discriminate|].
+          eapply (Hitem None _ [PStr e] (i :: rest')); simpl; eauto.
+      - destruct rest as [|i rest'].
+        + eapply (Hitem None _ [PStr e] []); simpl; eauto.
+        + destruct (is_num i); [discriminate|].
+          eapply (Hitem None _ [PStr e] (i :: rest')); simpl; eauto.
+      - destruct rest as [|i rest'].
+        + eapply (Hitem None _ [PStr e] []); simpl; eauto.
+        + destruct (is_num i); [discriminate|].
+          eapply (Hitem None _ [PStr e] (i :: rest')); simpl; eauto.
+      - (* JArr *)
+        destruct l0 as [|x1 [|x2 l']]; [discriminate| |].
+        + (* single member *)
+          destruct rest as [|i rest'].
+          * eapply (Hitem None x1 [PStr e] []); simpl; eauto.
+          * destruct (is_num i); [discriminate|].
+            eapply (Hitem None x1 [PStr e] (i :: rest')); simpl; eauto.
+        + destruct rest as [|i rest']; [discriminate|].
+          destruct (is_num i) eqn:Hinum; [|discriminate].
+          destruct (nth_error (x1 :: x2 :: l') (Z.to_nat (num_val i))) as [x|] eqn:Hnth; [|discriminate].
+          eapply (Hitem (Some (Z.to_nat (num_val i))) x [PStr e; PInt (num_val i)] rest').
+          * unfold items_of, indexed.
+            apply in_map_iff. exists (Z.to_nat (num_val i), x). split; [reflexivity|].
+            apply (index_from_nth (x1 :: x2 :: l') 0 (Z.to_nat (num_val i)) x Hnth).
+          * simpl. rewrite Z2Nat.id by (apply num_val_nonneg; exact Hinum).
+            rewrite <- app_assoc. reflexivity.
+          * apply IHN. simpl in Hlen. lia.
+          * exact Hf.
+      - (* JObj *)
+        destruct rest as [|i rest'].
+        + eapply (Hitem None _ [PStr e] []); simpl; eauto.
+        + destruct (is_num i); [discriminate|].
+          eapply (Hitem None _ [PStr e] (i :: rest')); simpl; eauto. }
+    destruct Hgoal as [f [Hfa Hprops]].
+    exists f. split; [|exact Hprops].
+    eapply concat_res_in; [exact Hn| |exact Hfa]. rewrite <- Ha. exact Hmap.
+Qed.
+
+Theorem field_is_fact : forall ld doc pi p dt v fs,
+  doc_field ld doc pi = Ok (p, dt, v) ->
+  facts ld doc = Ok fs ->
+  exists f, In f fs /\ f_path f = p /\ f_dt f = dt /\ f_val f = v.
+Proof.
+  intros ld doc pi p dt v fs Hd Hf.
+  unfold doc_field in Hd. unfold facts in Hf.
+  destruct doc as [| | | | | |m]; try discriminate.
+  apply bind_ok in Hd. destruct Hd as [cc [Hent Hd]].
+  rewrite Hent in Hf. cbv beta iota delta [bind] in Hf.
+  destruct (field_in_facts_len ld (List.length pi) pi (le_n _) _ _ _ _ _ _ _ _ Hd Hf) as [f [Hin [Hp [Hdt Hv]]]].
+  exists f. simpl in Hp. auto.
 Qed.
 
 (* ------------------------------------------------------------------ *)
